@@ -295,6 +295,9 @@ func (x *producerController) PostStop(ctx *Context) error {
 // Receive processes controller protocol traffic, producer handshakes, durable
 // operation results, lifecycle notifications, and timer ticks.
 func (x *producerController) Receive(ctx *ReceiveContext) {
+	if verifIntercept(x, ctx) {
+		return
+	}
 	switch msg := ctx.Message().(type) {
 	case *PostStart:
 		x.handlePostStart(ctx)
